@@ -12,7 +12,7 @@ CLAIMS = {
         "note": TB,
     },
     "C06": {
-        "text": "Theorems writes_justified / canStore_sound / understood_table_excludes: for every request and environment every store write of an exchange follows its single origin call and is either the write-back of the entry that was read (same status and body, after a 304) or one StoreResponse for a non-304 reply whose body was read completely and which the storability rules accept (final status, not 206, no no-store, must-understand only if understood, explicit freshness or RFC-heuristic status); bypassed requests (other methods, Range) never write. Correspondence + monitor over every Set reaching the recording store.",
+        "text": "Theorems writes_justified / canStore_sound / understood_table_excludes / unstorable_merge_is_not_written: for every request and environment every store write of an exchange follows its single origin call and is either the write-back of the entry that was read (same status and body, after a 304 — and only if the merged response is itself storable) or one StoreResponse for a non-304 reply whose body was read completely and which the storability rules accept (final status, not 206, no no-store, must-understand only if understood, explicit freshness or RFC-heuristic status); bypassed requests (other methods, Range) never write. Correspondence + monitor over every Set reaching the recording store.",
         "note": TB,
     },
     "C10": {
